@@ -52,6 +52,8 @@ def entry_keys(ndb):
 
 def model_arg(fn, a):
     a = norm(a)
+    if fn == 10:
+        a = [e2e_norm(a[0])] + a[1:]
     extra = [a[1]] if fn in (1, 2, 3) else []
     ndb, nextra = norm_spec(a[0], extra)
     keys = entry_keys(ndb)
@@ -66,6 +68,8 @@ def model_arg(fn, a):
         present.add(kl); mdb.append([k, me(e)])
     if fn in (1, 2, 3):
         return [mdb, me(nextra[0])] + a[2:]
+    if fn == 10:
+        return [mdb, a[1], a[2], norm(E2E_FIELDS)]
     return [mdb] + a[1:]
 
 # ----------------------------------------------------------------------------------------
@@ -76,10 +80,10 @@ def _alarm(signum, frame):
     raise _Timeout()
 
 def guarded(f):
-    """a 5 s alarm guards real hangs (non-termination is otherwise observable as RecursionError)"""
+    """an alarm guards real hangs (non-termination is otherwise observable as RecursionError)"""
     def g(a):
         old = signal.signal(signal.SIGALRM, _alarm)
-        signal.alarm(5)
+        signal.alarm(30)
         try:
             return f(a)
         except _Timeout:
@@ -283,6 +287,78 @@ def impl_py_run(a, strict=False):
         return [2]
 
 RUN_SCH = ('T', DB_SCH, ('L', 'S'), 'I', ('L', 'S'))
+
+E2E_FIELDS = ['title', 'year', 'note']
+def e2e_norm(db):
+    """the end-to-end stream recovers values from rendered text, so the value of field f of object i is
+    the token <F><i> whatever the (possibly shrunk) spec says; only title/year/note/crossref are kept"""
+    ndb, _ = norm_spec(db)
+    out = []
+    for k, e in ndb:
+        fs = []
+        for f, v in e[1]:
+            fl = S(f).lower()
+            if fl in E2E_FIELDS:
+                fs.append([norm(fl), norm('%s%d' % (fl[0].upper(), e[0]))])
+            elif fl == 'crossref':
+                fs.append([norm(fl), [c for c in v if (48 <= c < 58 or 65 <= c < 91 or 97 <= c < 123)]])
+        out.append([[c for c in k if (48 <= c < 58 or 65 <= c < 91 or 97 <= c < 123)] or [107], [e[0], fs, []]])
+    return norm_spec(out)[0]
+def bib_text(ndb):
+    out = []
+    for k, e in ndb:
+        fs = ['author = {A%d}' % e[0]] + ['%s = {%s}' % (S(f), S(v)) for f, v in e[1]]
+        out.append('@misc{%s,\n  %s\n}\n' % (S(k), ',\n  '.join(fs)))
+    return '\n'.join(out)
+
+def impl_e2e(a):
+    """end to end from .bib text: the real BibTeX parser feeding (1) the BST interpreter with the
+    field-dumping style and (2) pybtex.format_from_string with the stock unsrt style and the plaintext backend;
+    values are tokens T<i> / Y<i> / N<i>, recovered from the rendered text"""
+    import io, re, pybtex
+    from pybtex import errors
+    from pybtex.bibtex import bst
+    from pybtex.bibtex.interpreter import Interpreter
+    from pybtex.database.input.bibtex import Parser
+    from pybtex.exceptions import PybtexError
+    ndb = e2e_norm(a[0])
+    bib = bib_text(ndb)
+    cits = [S(c) for c in a[1]]
+    def run_bst():
+        script = _BST_CACHE.get(tuple(E2E_FIELDS))
+        if script is None:
+            script = _BST_CACHE[tuple(E2E_FIELDS)] = list(bst.parse_string(bst_source(E2E_FIELDS)))
+        out = Interpreter(Parser, None).run(script, list(cits), [io.StringIO(bib)], a[2])
+        lines = out.split('\n')
+        obs = []
+        for i in range(0, len(lines) - 1, 4):
+            obs.append([norm(lines[i]), [[] if l == '?' else [norm(l[1:-1])] for l in lines[i + 1:i + 4]]])
+        return obs
+    def run_py():
+        text = pybtex.format_from_string(bib, style='unsrt', citations=list(cits), output_backend='plaintext', min_crossrefs=a[2])
+        obs = []
+        for line in text.split('\n')[:-1]:
+            assert re.match(r'\[\d+\] ', line), line
+            vals = []
+            for letter in 'TYN':
+                m = re.findall(r'\b%s\d+\b' % letter, line)
+                assert len(m) <= 1, line
+                vals.append([norm(m[0])] if m else [])
+            obs.append([[], vals])
+        return obs
+    res = []
+    for run in (run_bst, run_py):
+        try:
+            with errors.capture() as errs:
+                obs = run()
+                res.append([0, [_kinds(errs), obs]])
+        except PybtexError:
+            res.append([1])
+        except (_Timeout, AssertionError):
+            raise
+        except Exception:
+            res.append([2])
+    return res
 FUNCS = {
     1: ('Entry._find_field', guarded(impl_find_field), ('T', DB_SCH, E_SCH, 'S', 'B')),
     2: ('interpreter Field.value / Crossref.value', guarded(impl_field_value), ('T', DB_SCH, E_SCH, 'S')),
@@ -292,6 +368,7 @@ FUNCS = {
     6: ('Python engine: BaseStyle.format_bibliography (errors captured)', guarded(impl_py_run), RUN_SCH),
     7: ('BST engine, strict mode', guarded(lambda a: impl_bst_run(a, True)), RUN_SCH),
     8: ('Python engine, strict mode', guarded(lambda a: impl_py_run(a, True)), RUN_SCH),
+    10: ('end to end: .bib text -> BibTeX parser -> BST interpreter / pybtex.format_from_string(unsrt, plaintext)', guarded(impl_e2e), ('T', DB_SCH, ('L', 'S'), 'I')),
     9: ('Entry._find_field, every entry x every name', guarded(impl_find_all), ('T', DB_SCH, ('L', 'S'), 'B')),
 }
 
@@ -303,6 +380,9 @@ def canon(fn, r):
         return [r[0], kinds(r[1])]
     if fn in (5, 6) and isinstance(r, list) and r[:1] == [0]:
         return [0, [kinds(r[1][0]), r[1][1]]]
+    if fn == 10 and isinstance(r, list) and len(r) == 2:
+        # the rendered text does not show keys: entries are compared by position
+        return [([0, [kinds(x[1][0]), [o[1] for o in x[1][1]]]] if x[:1] == [0] else canon_res(x)) for x in r]
     return r
 
 # ----------------------------------------------------------------------------------------
@@ -383,6 +463,8 @@ def oracle(fn, a, out):
             return 'field %r: expected %r (own field, else person role, else nearest definition along the crossref chain, else missing), got %r' % (name, exp, got)
         return None
     ndb, _ = norm_spec(a[0])
+    if fn == 10:
+        ndb = e2e_norm(a[0])
     table = _table(ndb)
     if fn == 9:
         ents = list(table.values())
@@ -396,6 +478,23 @@ def oracle(fn, a, out):
                     exp = expected(table, e, S(nm)); got = S(o[1][0]) if o[1] else None
                     if got != exp:
                         return 'object %d, field %r: expected %r (own field, else person role, else nearest definition along the crossref chain, else missing), got %r' % (e[0], S(nm), exp, got)
+        return None
+    if fn == 10:
+        if len(out) != 2:
+            return 'malformed implementation output'
+        for which, o in zip(('BST', 'Python'), out):
+            if o[:1] != [0]:
+                return '%s engine raised (%s) although errors are captured' % (which, 'foreign exception' if o == [2] else 'pybtex error')
+        m = oracle(5, [ndb, a[1], a[2], norm(E2E_FIELDS)], out[0])
+        if m:
+            return 'end to end, ' + m
+        vb = [o[1] for o in out[0][1][1]]; vp = [o[1] for o in out[1][1][1]]
+        if vb != vp:
+            return 'end to end: the engines disagree: BST sees %r, the Python unsrt style renders %r' % (
+                [[S(v[0]) if v else None for v in r] for r in vb], [[S(v[0]) if v else None for v in r] for r in vp])
+        cited = cited_entries(ndb, table, a[1])
+        if any(dangling(table, e) for e in cited) and 0 not in [(k[0] if isinstance(k, list) else k) for k in out[1][1][0]]:
+            return 'end to end: a cited entry has a dangling crossref but the Python engine reported no bad cross-reference'
         return None
     if out == [2]:
         return 'crashed with a foreign exception instead of reporting'
@@ -509,6 +608,8 @@ def rand_db(rng, n, p_cross=0.7, p_dangle=0.1, alias=False, dupkeys=False):
             e[1].append(['note', ''])            # an empty value is a value
         if rng.random() < 0.05:
             e[2].append(['translator', []])      # a role with no persons
+        if rng.random() < 0.08:
+            e[1].append([rng.choice(['editor', 'EDITOR']), 'FE%d' % i])   # a field named like a role: the field wins
         db.append([keys[i], e])
     if alias and n >= 2:
         j = rng.randrange(n)
@@ -520,15 +621,26 @@ def rand_db(rng, n, p_cross=0.7, p_dangle=0.1, alias=False, dupkeys=False):
 
 QNAMES = ['title', 'editor', 'year', 'crossref', 'TITLE', 'Editor', 'note', 'translator', 'author', '']
 
+def _warmup():
+    """import pybtex and load its plugins once in the parent, before the implementation pool forks
+    (otherwise every worker pays the imports inside its first, alarm-guarded, case)"""
+    try:
+        a = [[['a', [0, [['crossref', 'a']], []]]], ['a'], 2]
+        impl_e2e(norm(a)); impl_py_run(norm(a + [['title']])); impl_bst_run(norm(a + [['title']]))
+    except Exception:
+        pass
+
 def gen(tier, rng):
     quick = tier == 'quick'
+    _warmup()
     # ---- pinned: the defects of DESIGN.md section 4 (F4, F5) and every disagreement seen while building
     selfloop = [['a', mk(0, crossref='a')]]
     two = [['a', mk(0, crossref='b')], ['b', mk(1, crossref='a')]]
     three = [['a', mk(0, crossref='b')], ['b', mk(1, crossref='c')], ['c', mk(2, editor=True, crossref='a')]]
     f5 = [['child', mk(0, crossref='parent')], ['parent', mk(1, title=True, editor=True, year=True)]]
     lasso = [['a', mk(0, crossref='b')], ['b', mk(1, crossref='c')], ['c', mk(2, crossref='b')]]
-    for db in (selfloop, two, three, f5, lasso):
+    both = [['a', mk(0, editor=True, crossref='b', extra=[['editor', 'own']])], ['b', mk(1, editor=True, title=True)]]
+    for db in (selfloop, two, three, f5, lasso, both):
         for k, e in db:
             for nm in ('title', 'editor', 'crossref'):
                 yield ('pinned', 1, [db, e, nm, 1]); yield ('pinned', 2, [db, e, nm]); yield ('pinned', 3, [db, e, nm, 1])
@@ -588,6 +700,32 @@ def gen(tier, rng):
         yield ('random', 9, [db, rng.sample(QNAMES, 3), 0 if rng.random() < 0.05 else 1])
         yield ('random', rng.choice([5, 7]), [db, cits, minx, fields])
         yield ('random', rng.choice([6, 8]), [db, cits, minx, fields])
+    # ---- end to end through the real .bib parser and the stock unsrt style: every entry cited (any order/case)
+    def e2e_db(n, xs, fs):
+        db = []
+        for i in range(n):
+            f = [[nm, '%s%d' % (nm[0].upper(), i)] for nm, on in zip(E2E_FIELDS, fs[i]) if on]
+            x = xs[i]
+            if x is not None:
+                f.append(['crossref', x])
+            db.append(['k%d' % i, [i, f, []]])
+        return db
+    for n in (1, 2, 3):
+        opts = [None] + ['k%d' % j for j in range(n)] + ['zz']
+        allg = list(itertools.product(opts, repeat=n))
+        for gi, xs in enumerate(allg):
+            reps = 1 if (quick and n == 3) else 2
+            for r in range(reps):
+                fs = [[rng.random() < 0.35 for _ in E2E_FIELDS] for _ in range(n)]
+                if quick and n == 3 and gi % 2:
+                    continue
+                db = e2e_db(n, [x.upper() if (x and rng.random() < 0.3) else x for x in xs], fs)
+                keys = [k for k, _ in db]
+                cits = ['*'] if rng.random() < 0.3 else [k.upper() if rng.random() < 0.3 else k for k in rng.sample(keys, len(keys))]
+                yield ('end_to_end', 10, [db, cits, rng.choice([2, 1])])
+    f5bib = [['child', [0, [['crossref', 'parent']], []]], ['parent', [1, [['title', 'T1'], ['year', 'Y1'], ['note', 'N1']], []]]]
+    yield ('pinned', 10, [f5bib, ['child', 'parent'], 2]); yield ('pinned', 10, [f5bib, ['*'], 1])
+    yield ('pinned', 10, [[['a', [0, [['crossref', 'a']], []]], ['b', [1, [['crossref', 'a'], ['note', 'N1']], []]]], ['b', 'a'], 2])
     # ---- long chains and big cycles (termination; Python recursion stays well below its limit here)
     for n in ([20, 60] if quick else [20, 60, 150]):
         ch = [['k%d' % i, mk(i, crossref='k%d' % (i + 1))] for i in range(n)] + [['k%d' % n, mk(n, title=True)]]
@@ -615,7 +753,9 @@ def describe(fn, a):
     def ent(e):
         return {'object': e[0], 'fields': {S(k): S(v) for k, v in e[1]}, 'persons': {S(r): [S(p) for p in ps] for r, ps in e[2]}}
     d = {'function': FUNCS[fn][0], 'database': [[S(k), ent(e)] for k, e in a[0]]}
-    if fn == 9:
+    if fn == 10:
+        d['citations'] = [S(c) for c in a[1]]; d['min_crossrefs'] = a[2]; d['bib'] = bib_text(e2e_norm(a[0]))
+    elif fn == 9:
         d['fields'] = [S(f) for f in a[1]]; d['bib_data_passed'] = bool(a[2])
         del d['function']; d = dict(function=FUNCS[fn][0], **d)
     elif fn in (1, 2, 3):
